@@ -54,6 +54,9 @@ fn read_yuv<T: Pixel>(y: &Yuv<T>) -> [Vec<u16>; 3] {
 
 /// float result of a conversion from a YUV image
 fn from_yuv<T: Pixel>(call: &str, y: &Yuv<T>) -> Result<(Px, usize, usize), String> {
+    crate::util::guard_s(|| from_yuv_inner(call, y))
+}
+fn from_yuv_inner<T: Pixel>(call: &str, y: &Yuv<T>) -> Result<(Px, usize, usize), String> {
     let e = |x: yuvxyb::ConversionError| crate::frames::err_name_conv(x).to_string();
     match call {
         "YuvToRgb" => Rgb::try_from(y).map(|r| (r.data().to_vec(), r.width(), r.height())).map_err(e),
@@ -114,6 +117,9 @@ fn yuv_source_event<T: Pixel>(sh: &mut Shards, call: &str, c: &Cfg, st: u8, w: u
 
 /// conversions between the float kinds (and into Rgb): closures over pixel vectors
 fn float_conv(call: &str, c: &Cfg, px: &[[f32; 3]], w: usize, h: usize) -> Result<(Px, usize, usize), String> {
+    crate::util::guard_s(|| float_conv_inner(call, c, px, w, h))
+}
+fn float_conv_inner(call: &str, c: &Cfg, px: &[[f32; 3]], w: usize, h: usize) -> Result<(Px, usize, usize), String> {
     let e = |x: yuvxyb::ConversionError| crate::frames::err_name_conv(x).to_string();
     let v = px.to_vec();
     match call {
@@ -130,6 +136,9 @@ fn float_conv(call: &str, c: &Cfg, px: &[[f32; 3]], w: usize, h: usize) -> Resul
 }
 
 fn to_yuv_conv<T: Pixel>(call: &str, c: &Cfg, px: &[[f32; 3]], w: usize, h: usize) -> Result<Yuv<T>, String> {
+    crate::util::guard_s(|| to_yuv_conv_inner::<T>(call, c, px, w, h))
+}
+fn to_yuv_conv_inner<T: Pixel>(call: &str, c: &Cfg, px: &[[f32; 3]], w: usize, h: usize) -> Result<Yuv<T>, String> {
     let e = |x: yuvxyb::ConversionError| crate::frames::err_name_conv(x).to_string();
     let v = px.to_vec();
     match call {
